@@ -718,13 +718,24 @@ Section RunnerProofs.
   Definition gf_new s := assign_ids (nid s) (gf_pts s).
   Definition gf_pids s := gf_R s ++ map fst (gf_new s).
   Definition gf_subs s := subs_list (nfid s) (gf_pids s) (idp s ++ gf_new s).
+  (* the same when the submission loop is interrupted after [k] submissions *)
+  Definition gf_subs_k k s := subs_list (nfid s) (cut k (gf_pids s)) (idp s ++ gf_new s).
 
-  Lemma get_futures_spec s : Inv s ->
-    let s' := get_futures lrn c s in
+  Lemma cut_In k (l : list nat) p : In p (cut k l) -> In p l.
+  Proof. destruct k as [j|]; cbn [cut]; [apply In_firstn|auto]. Qed.
+
+  Lemma cut_NoDup k (l : list nat) : NoDup l -> NoDup (cut k l).
+  Proof. destruct k as [j|]; cbn [cut]; [apply NoDup_firstn|auto]. Qed.
+
+  Lemma cut_length k (l : list nat) : length (cut k l) <= length l.
+  Proof. destruct k as [j|]; cbn [cut]; [rewrite firstn_length; lia|lia]. Qed.
+
+  Lemma get_futures_upto_spec k s : Inv s ->
+    let s' := get_futures_upto lrn c k s in
     Inv s' /\
-    pend s' = pend s ++ combine (seq (nfid s) (length (gf_pids s))) (gf_pids s) /\
-    tr s' = rev (map sub_ev (gf_subs s)) ++ (if gf_asks s then [TAsk (gf_m s) (gf_new s)] else []) ++ tr s /\
-    map (fun z : nat * nat * P => snd (fst z)) (gf_subs s) = gf_pids s /\
+    pend s' = pend s ++ combine (seq (nfid s) (length (cut k (gf_pids s)))) (cut k (gf_pids s)) /\
+    tr s' = rev (map sub_ev (gf_subs_k k s)) ++ (if gf_asks s then [TAsk (gf_m s) (gf_new s)] else []) ++ tr s /\
+    map (fun z : nat * nat * P => snd (fst z)) (gf_subs_k k s) = cut k (gf_pids s) /\
     retry s' = retry s /\ tbs s' = tbs s /\ idp s' = idp s ++ gf_new s /\
     nid s' = nid s + length (gf_pts s) /\
     log s' = (if c_log c then log s ++ [LAsk (gf_n s)] else log s) /\
@@ -739,7 +750,7 @@ Section RunnerProofs.
       by (unfold s1; destruct (c_log c); sp; repeat split).
     destruct F1 as (Fp & Fr & Ft & Fi & Fn & Ff & Fl & Fph & Ftr & Flog).
     assert (Hrc : retry_candidates s1 = retry_candidates s) by (unfold retry_candidates; rewrite Fp, Fr; reflexivity).
-    assert (Hs' : s' = let '(pids, s2) := ask lrn s1 (gf_n s) in fold_left (@submit_pid P V L) pids s2) by reflexivity.
+    assert (Hs' : s' = let '(pids, s2) := ask lrn s1 (gf_n s) in fold_left (@submit_pid P V L) (cut k pids) s2) by reflexivity.
     rewrite ask_eq in Hs'. cbv zeta in Hs'. rewrite Hrc, Fl, Fn in Hs'. fold (gf_R s) in Hs'. fold (gf_m s) in Hs'.
     fold (gf_asks s) in Hs'.
     (* facts about the retried pids *)
@@ -748,7 +759,7 @@ Section RunnerProofs.
       apply aget_In_keys in Hk. split; [exact Hk|]. split; [exact Hc|].
       intros Hn. apply (i_dom HI) in Hn. tauto. }
     assert (HRnd : NoDup (gf_R s)) by (apply NoDup_firstn, retry_candidates_nodup, HI).
-    unfold gf_subs, gf_pids, gf_new, gf_pts. destruct (gf_asks s) eqn:Ea.
+    unfold gf_subs_k, gf_pids, gf_new, gf_pts. destruct (gf_asks s) eqn:Ea.
     - (* the learner is asked *)
       set (pts := fst (l_ask lrn (lst s) (gf_m s))) in *. set (l' := snd (l_ask lrn (lst s) (gf_m s))) in *.
       set (s2 := ask_ext s1 (gf_m s) pts l') in *.
@@ -776,11 +787,16 @@ Section RunnerProofs.
         - fold (akeys new). unfold new. rewrite assign_ids_keys. apply seq_NoDup.
         - intros p Hp Hq. destruct (HR p Hp) as (_ & _ & A3). apply (i_idp_lt HI) in A3.
           fold (akeys new) in Hq. apply aget_In_keys, assign_ids_range in Hq. lia. }
-      assert (Hs2 : s' = fold_left (@submit_pid P V L) pids s2) by exact Hs'.
-      pose proof (submit_fold_shape pids s2) as SH. cbv zeta in SH. rewrite <- Hs2, Gf, Gi in SH.
+      set (sel := cut k pids) in *.
+      assert (HallS : forall p, In p sel -> aget p (idp s2) <> None /\ cnt p (pvals s2) = 0 /\
+                                 (aget p (tbs s2) <> None -> aget p (retry s2) <> None))
+        by (intros p Hp; apply Hall; apply (cut_In k); exact Hp).
+      assert (HndS : NoDup sel) by (apply cut_NoDup; exact Hnd).
+      assert (Hs2 : s' = fold_left (@submit_pid P V L) sel s2) by exact Hs'.
+      pose proof (submit_fold_shape sel s2) as SH. cbv zeta in SH. rewrite <- Hs2, Gf, Gi in SH.
       destruct SH as (S1 & S2 & S3 & S4 & S5 & S6 & S7 & S8 & S9 & S10).
-      destruct (subs_list_all (nfid s) pids (idp s ++ new)) as (T1 & T2 & T3).
-      { intros p Hp. destruct (Hall p Hp) as (A & _). rewrite Gi in A. exact A. }
+      destruct (subs_list_all (nfid s) sel (idp s ++ new)) as (T1 & T2 & T3).
+      { intros p Hp. destruct (HallS p Hp) as (A & _). rewrite Gi in A. exact A. }
       split; [rewrite Hs2; apply Inv_submit_fold; assumption|].
       rewrite S1, S2, S4, S5, S6, S7, S8, S9, S10, T3, Gp, Gtr, Gr, Gt, Gn, Glog, Gl, Gph, Flog.
       repeat split; try reflexivity. exact T1.
@@ -789,16 +805,33 @@ Section RunnerProofs.
       assert (Hall : forall p, In p (gf_R s) -> aget p (idp s1) <> None /\ cnt p (pvals s1) = 0 /\
                                  (aget p (tbs s1) <> None -> aget p (retry s1) <> None)).
       { intros p Hp. unfold pvals. rewrite Fi, Fp, Ft, Fr. destruct (HR p Hp) as (A1 & A2 & A3). auto. }
-      assert (Hs2 : s' = fold_left (@submit_pid P V L) (gf_R s) s1) by exact Hs'.
-      pose proof (submit_fold_shape (gf_R s) s1) as SH. cbv zeta in SH. rewrite <- Hs2, Ff, Fi in SH.
+      set (sel := cut k (gf_R s)) in *.
+      assert (HallS : forall p, In p sel -> aget p (idp s1) <> None /\ cnt p (pvals s1) = 0 /\
+                                 (aget p (tbs s1) <> None -> aget p (retry s1) <> None))
+        by (intros p Hp; apply Hall; apply (cut_In k); exact Hp).
+      assert (HndS : NoDup sel) by (apply cut_NoDup; exact HRnd).
+      assert (Hs2 : s' = fold_left (@submit_pid P V L) sel s1) by exact Hs'.
+      pose proof (submit_fold_shape sel s1) as SH. cbv zeta in SH. rewrite <- Hs2, Ff, Fi in SH.
       destruct SH as (S1 & S2 & S3 & S4 & S5 & S6 & S7 & S8 & S9 & S10).
-      destruct (subs_list_all (nfid s) (gf_R s) (idp s)) as (T1 & T2 & T3).
-      { intros p Hp. apply HR. exact Hp. }
+      destruct (subs_list_all (nfid s) sel (idp s)) as (T1 & T2 & T3).
+      { intros p Hp. apply HR. apply (cut_In k). exact Hp. }
       split; [rewrite Hs2; apply Inv_submit_fold; assumption|].
       rewrite S1, S2, S4, S5, S6, S7, S8, S9, S10, T3, Fp, Ftr, Fr, Ft, Fn, Flog, Fl, Fph.
       cbn [length app]. rewrite Nat.add_0_r.
       repeat split; try reflexivity. exact T1.
   Qed.
+
+  Lemma get_futures_spec s : Inv s ->
+    let s' := get_futures lrn c s in
+    Inv s' /\
+    pend s' = pend s ++ combine (seq (nfid s) (length (gf_pids s))) (gf_pids s) /\
+    tr s' = rev (map sub_ev (gf_subs s)) ++ (if gf_asks s then [TAsk (gf_m s) (gf_new s)] else []) ++ tr s /\
+    map (fun z : nat * nat * P => snd (fst z)) (gf_subs s) = gf_pids s /\
+    retry s' = retry s /\ tbs s' = tbs s /\ idp s' = idp s ++ gf_new s /\
+    nid s' = nid s + length (gf_pts s) /\
+    log s' = (if c_log c then log s ++ [LAsk (gf_n s)] else log s) /\
+    lst s' = (if gf_asks s then snd (l_ask lrn (lst s) (gf_m s)) else lst s) /\ ph s' = ph s.
+  Proof. exact (get_futures_upto_spec None s). Qed.
 
   (* ---- _remove_unfinished / stop ---------------------------------------- *)
   Definition neutral e : Prop := e = TRemove \/ exists f, e = TCancel f.
@@ -876,9 +909,10 @@ Section RunnerProofs.
   Lemma Inv_rstep s (a : ev) : Inv s -> Inv (rstep lrn c s a).
   Proof.
     intros HI. unfold rstep.
-    destruct (ph s) as [| |w|w cl]; destruct a as [[|]|done| |got]; try exact HI.
+    destruct (ph s) as [| |w|w cl]; destruct a as [[|]|done| |j|got]; try exact HI.
     - apply Inv_stop; exact HI.
     - apply Inv_set_ph. apply get_futures_spec. exact HI.
+    - apply Inv_stop. apply get_futures_upto_spec. exact HI.
     - destruct (process lrn c s done) as [s' [pid|]] eqn:Ep.
       + apply Inv_stop. eapply Inv_process; eauto.
       + apply Inv_set_ph. eapply Inv_process; eauto.
@@ -1034,18 +1068,25 @@ Section RunnerProofs.
     destruct (Hn e He) as [(f & q & o & ->)|(q & x & y & ->)]; split; try discriminate; intros; discriminate.
   Qed.
 
+  Lemma gfk_not_stop k s : Inv s -> (forall e, In e (tr s) -> not_stop e) ->
+    forall e, In e (tr (get_futures_upto lrn c k s)) -> not_stop e.
+  Proof.
+    intros HI HP. destruct (get_futures_upto_spec k s HI) as (_ & _ & Ft & _).
+    intros e He. rewrite Ft in He. apply in_app_or in He. destruct He as [He|He].
+    - apply in_rev in He. apply in_map_iff in He. destruct He as (z & <- & _).
+      split; [discriminate|intros; discriminate].
+    - apply in_app_or in He. destruct He as [He|He]; [|auto].
+      destruct (gf_asks s); [|destruct He]. destruct He as [<-|[]]. split; [discriminate|intros; discriminate].
+  Qed.
+
   Lemma PhInv_rstep s (a : ev) : Inv s -> PhInv s -> PhInv (rstep lrn c s a).
   Proof.
     intros HI HP. unfold rstep. unfold PhInv in HP.
-    destruct (ph s) as [| |w|w cl] eqn:Eph; destruct a as [[|]|done| |got];
+    destruct (ph s) as [| |w|w cl] eqn:Eph; destruct a as [[|]|done| |j|got];
       try (unfold PhInv; rewrite Eph; exact HP).
     - apply PhInv_stop; [discriminate|exact HP].
-    - destruct (get_futures_spec s HI) as (_ & _ & Ft & _). unfold PhInv. sp.
-      intros e He. rewrite Ft in He. apply in_app_or in He. destruct He as [He|He].
-      + apply in_rev in He. apply in_map_iff in He. destruct He as (z & <- & _).
-        split; [discriminate|intros; discriminate].
-      + apply in_app_or in He. destruct He as [He|He]; [|auto].
-        destruct (gf_asks s); [|destruct He]. destruct He as [<-|[]]. split; [discriminate|intros; discriminate].
+    - unfold PhInv. sp. apply (gfk_not_stop None s HI HP).
+    - apply PhInv_stop; [discriminate|]. apply (gfk_not_stop (Some j) s HI HP).
     - destruct (process lrn c s done) as [s' [pid|]] eqn:Ep.
       + apply PhInv_stop; [discriminate|]. eapply not_stop_Pr; [eapply process_Pr; eauto|exact HP].
       + unfold PhInv. sp. eapply not_stop_Pr; [eapply process_Pr; eauto|exact HP].
@@ -1143,19 +1184,25 @@ Section RunnerProofs.
     rewrite Fph. destruct (pend s); rewrite nerr_stop; auto.
   Qed.
 
+  Lemma gfk_nerr k s p : Inv s -> nerr p (tr (get_futures_upto lrn c k s)) = nerr p (tr s).
+  Proof.
+    intros HI. destruct (get_futures_upto_spec k s HI) as (_ & _ & Ft & _). rewrite Ft.
+    unfold nerr. rewrite !count_true_app.
+    assert (H0 : count_true (is_err p) (rev (map sub_ev (gf_subs_k k s))) = 0).
+    { apply count_true_0. intros a Ha. apply in_rev in Ha. apply in_map_iff in Ha. destruct Ha as (z & <- & _). reflexivity. }
+    assert (H1 : count_true (is_err p) (if gf_asks s then [TAsk (gf_m s) (gf_new s)] else []) = 0)
+      by (destruct (gf_asks s); reflexivity).
+    rewrite H0, H1. reflexivity.
+  Qed.
+
   Lemma RaiseInv_rstep s (a : ev) : Inv s -> RaiseInv s -> RaiseInv (rstep lrn c s a).
   Proof.
     intros HI HR. unfold rstep. unfold RaiseInv in HR.
-    destruct (ph s) as [| |w|w cl] eqn:Eph; destruct a as [[|]|done| |got];
+    destruct (ph s) as [| |w|w cl] eqn:Eph; destruct a as [[|]|done| |j|got];
       try (unfold RaiseInv; rewrite Eph; exact HR).
     - apply RaiseInv_stop_ok; [discriminate|exact HR].
-    - destruct (get_futures_spec s HI) as (_ & _ & Ft & _). unfold RaiseInv. sp. intros Hr p. rewrite Ft.
-      unfold nerr. rewrite !count_true_app.
-      assert (H0 : count_true (is_err p) (rev (map sub_ev (gf_subs s))) = 0).
-      { apply count_true_0. intros a Ha. apply in_rev in Ha. apply in_map_iff in Ha. destruct Ha as (z & <- & _). reflexivity. }
-      assert (H1 : count_true (is_err p) (if gf_asks s then [TAsk (gf_m s) (gf_new s)] else []) = 0)
-        by (destruct (gf_asks s); reflexivity).
-      rewrite H0, H1. apply HR. exact Hr.
+    - unfold RaiseInv. sp. unfold get_futures. intros Hr p. rewrite (gfk_nerr None s p HI). apply HR. exact Hr.
+    - apply RaiseInv_stop_ok; [discriminate|]. intros Hr p. rewrite (gfk_nerr (Some j) s p HI). apply HR. exact Hr.
     - pose proof (process_raise done s) as Hpr.
       destruct (process lrn c s done) as [s' [pid|]] eqn:Ep; specialize (Hpr _ _ HI HR eq_refl).
       + destruct Hpr. apply RaiseInv_stop_failed; assumption.
@@ -1299,18 +1346,18 @@ Section RunnerProofs.
       rewrite <- app_assoc. exact Hne.
   Qed.
 
-  Lemma subs_silent s e : In e (rev (map sub_ev (gf_subs s))) -> silent e.
+  Lemma subs_silent k s e : In e (rev (map sub_ev (gf_subs_k k s))) -> silent e.
   Proof.
     intros He. apply in_rev in He. apply in_map_iff in He. destruct He as (z & <- & _).
     split; [intros; reflexivity|reflexivity].
   Qed.
 
-  Lemma LogInv_get_futures l0 s : Inv s -> LogInv l0 s -> LogInv l0 (get_futures lrn c s).
+  Lemma LogInv_get_futures l0 k s : Inv s -> LogInv l0 s -> LogInv l0 (get_futures_upto lrn c k s).
   Proof.
     intros HI [A B C].
-    destruct (get_futures_spec s HI) as (_ & _ & Ft & _ & Fr & _ & _ & _ & Flog & Flst & _).
+    destruct (get_futures_upto_spec k s HI) as (_ & _ & Ft & _ & Fr & _ & _ & _ & Flog & Flst & _).
     set (X := (if gf_asks s then [TAsk (gf_m s) (gf_new s)] else []) ++ tr s) in *.
-    destruct (silent_trace (apply_trace l0 X) (rev (map sub_ev (gf_subs s))) (subs_silent s)) as [S1 S2].
+    destruct (silent_trace (apply_trace l0 X) (rev (map sub_ev (gf_subs_k k s))) (subs_silent k s)) as [S1 S2].
     constructor.
     - rewrite Flst, Ft, apply_trace_app, S1. unfold X. destruct (gf_asks s); cbn [app apply_trace fold_right apply_tev].
       + fold (apply_trace l0 (tr s)). rewrite <- A. reflexivity.
@@ -1330,9 +1377,10 @@ Section RunnerProofs.
   Lemma LogInv_rstep l0 s (a : ev) : Inv s -> LogInv l0 s -> LogInv l0 (rstep lrn c s a).
   Proof.
     intros HI HL. unfold rstep.
-    destruct (ph s) as [| |w|w cl] eqn:Eph; destruct a as [[|]|done| |got]; try exact HL.
+    destruct (ph s) as [| |w|w cl] eqn:Eph; destruct a as [[|]|done| |j|got]; try exact HL.
     - apply LogInv_stop; exact HL.
-    - apply LogInv_set_ph, LogInv_get_futures; assumption.
+    - apply LogInv_set_ph, (LogInv_get_futures l0 None); assumption.
+    - apply LogInv_stop, LogInv_get_futures; assumption.
     - destruct (process lrn c s done) as [s' [pid|]] eqn:Ep.
       + apply LogInv_stop. eapply LogInv_process; eauto.
       + apply LogInv_set_ph. eapply LogInv_process; eauto.
@@ -1411,14 +1459,19 @@ Section RunnerProofs.
       destruct (B pid eq_refl) as (s0 & fid & _ & H0 & Hf & -> & _).
       pose proof (Hst _ _ _ (ps_err s0 fid pid Hf)). lia. }
     assert (Hstop : forall s0 w, pend (stop lrn s0 w) = pend s0) by (intros; apply stop_fields).
-    unfold rstep. destruct (ph s) as [| |w|w cl]; destruct a as [[|]|done| |got]; try exact HL.
-    - rewrite Hstop. exact HL.
-    - sp. destruct (get_futures_spec s HI) as (_ & Fp & _). rewrite Fp, app_length, combine_length, seq_length, Nat.min_id.
+    assert (Hgf : forall k, length (pend (get_futures_upto lrn c k s)) <= M).
+    { intros k. destruct (get_futures_upto_spec k s HI) as (_ & Fp & _).
+      rewrite Fp, app_length, combine_length, seq_length, Nat.min_id. pose proof (cut_length k (gf_pids s)) as Hc.
+      assert (length (gf_pids s) <= gf_n s); [|unfold gf_n in *; lia].
       unfold gf_pids, gf_new, gf_pts. rewrite app_length, map_length, assign_ids_length.
       assert (HR : length (gf_R s) <= gf_n s) by (unfold gf_R; apply firstn_le_length).
       unfold gf_asks. destruct (Nat.ltb_spec (length (gf_R s)) (gf_n s)).
       + specialize (Hask (lst s) (gf_m s)). unfold gf_m in *. unfold gf_n in *. lia.
-      + cbn [length]. unfold gf_n in *. lia.
+      + cbn [length]. unfold gf_n in *. lia. }
+    unfold rstep. destruct (ph s) as [| |w|w cl]; destruct a as [[|]|done| |j|got]; try exact HL.
+    - rewrite Hstop. exact HL.
+    - sp. apply (Hgf None).
+    - rewrite Hstop. apply (Hgf (Some j)).
     - destruct (process lrn c s done) as [s' [pid|]] eqn:Ep; [rewrite Hstop|sp]; specialize (Hproc _ _ _ Ep); lia.
     - rewrite Hstop. exact HL.
     - destruct (c_kind c); [|exact HL].
@@ -1467,29 +1520,37 @@ Section RunnerProofs.
   Definition phw s : option why := match ph s with Stopping w | Stopped w _ => Some w | _ => None end.
 
   Lemma phw_rstep s (a : ev) w : phw (rstep lrn c s a) = Some w ->
-    phw s = Some w \/ (w = GoalMet /\ a = Goal true) \/ (w = Cancelled /\ a = Cancel) \/ exists p, w = Failed p.
+    phw s = Some w \/ (w = GoalMet /\ a = Goal true) \/ (w = Cancelled /\ (a = Cancel \/ exists j, a = SubmitCancel j)) \/
+    exists p, w = Failed p.
   Proof.
     assert (Hstop : forall s0 w0, phw (stop lrn s0 w0) = Some w0).
     { intros s0 w0. unfold phw. destruct (stop_fields s0 w0) as (_ & _ & _ & _ & _ & _ & _ & _ & _ & Fph).
       rewrite Fph. destruct (pend s0); reflexivity. }
-    unfold rstep. destruct (ph s) as [| |w0|w0 cl] eqn:Eph; destruct a as [[|]|done| |got];
+    unfold rstep. destruct (ph s) as [| |w0|w0 cl] eqn:Eph; destruct a as [[|]|done| |j|got];
       try (unfold phw; rewrite Eph; intros H; left; exact H).
     - rewrite Hstop. intros [= <-]. auto.
+    - rewrite Hstop. intros [= <-]. right. right. left. split; [reflexivity|right; eexists; reflexivity].
     - destruct (process lrn c s done) as [s' [pid|]]; [rewrite Hstop; intros [= <-]; eauto 6|unfold phw; sp; discriminate].
-    - rewrite Hstop. intros [= <-]. auto.
+    - rewrite Hstop. intros [= <-]. auto 8.
     - unfold phw at 2. rewrite Eph. destruct (c_kind c).
       + destruct (process lrn c s got) as [s' [pid|]]; unfold phw; sp; intros [= <-]; eauto 6.
       + unfold phw; sp. intros [= <-]. auto.
   Qed.
 
   Lemma phw_run evs : forall s w, phw (run lrn c s evs) = Some w ->
-    phw s = Some w \/ (w = GoalMet /\ In (Goal true) evs) \/ (w = Cancelled /\ In Cancel evs) \/ exists p, w = Failed p.
+    phw s = Some w \/ (w = GoalMet /\ In (Goal true) evs) \/
+    (w = Cancelled /\ (In Cancel evs \/ exists j, In (SubmitCancel j) evs)) \/ exists p, w = Failed p.
   Proof.
     induction evs as [|a evs IH]; intros s w H; [left; exact H|]. rewrite run_cons in H.
     destruct (IH _ _ H) as [H1|[[-> H1]|[[-> H1]|H1]]].
-    - destruct (phw_rstep _ _ _ H1) as [H2|[[-> ->]|[[-> ->]|H2]]]; cbn [In]; auto 6.
+    - destruct (phw_rstep _ _ _ H1) as [H2|[[-> ->]|[[-> [->|[j ->]]]|H2]]]; cbn [In].
+      + auto.
+      + auto 6.
+      + right. right. left. split; [reflexivity|left; left; reflexivity].
+      + right. right. left. split; [reflexivity|right; exists j; left; reflexivity].
+      + auto 6.
     - right. left. split; [reflexivity|right; exact H1].
-    - right. right. left. split; [reflexivity|right; exact H1].
+    - right. right. left. split; [reflexivity|]. destruct H1 as [H1|[j H1]]; [left; right; exact H1|right; exists j; right; exact H1].
     - auto.
   Qed.
 
@@ -1497,7 +1558,7 @@ Section RunnerProofs.
     let s := reach l0 evs in
     ph s = Stopped w cl -> w <> NoWorkers ->
     (w = GoalMet -> In (Goal true) evs) /\
-    (w = Cancelled -> In Cancel evs) /\
+    (w = Cancelled -> In Cancel evs \/ exists j, In (SubmitCancel j) evs) /\
     (forall p, w = Failed p -> c_raise c = true /\ r < nerr p (tr s)) /\
     (exists t1 t2, tr s = t1 ++ TRemove :: t2 /\ (forall e, In e t1 -> is_cdt e) /\ (forall e, In e t2 -> not_stop e)) /\
     (forall fid pid x, In (TSubmit fid pid x) (tr s) ->
@@ -1606,8 +1667,11 @@ Section RunnerProofs.
       exists (rev (cancels s0) ++ [TRemove]). rewrite Ft, <- app_assoc. reflexivity. }
     assert (Hproc : forall done s' res, process lrn c s done = (s', res) -> exists tn, tr s' = tn ++ tr s).
     { intros done s' res Ep. destruct (process_Pr _ _ _ _ HI Ep) as (tn & Ht & _). exists tn. exact Ht. }
-    destruct (ph s) as [| |w|w cl]; destruct a as [[|]|done| |got]; try (exists []; reflexivity); try apply Hstop.
+    destruct (ph s) as [| |w|w cl]; destruct a as [[|]|done| |j|got]; try (exists []; reflexivity); try apply Hstop.
     - sp. destruct (get_futures_spec s HI) as (_ & _ & Ft & _). rewrite Ft, app_assoc. eexists. reflexivity.
+    - destruct (Hstop (get_futures_upto lrn c (Some j) s) Cancelled) as (tn' & Ht').
+      destruct (get_futures_upto_spec (Some j) s HI) as (_ & _ & Ft & _).
+      rewrite Ht', Ft, !app_assoc. eexists. reflexivity.
     - destruct (process lrn c s done) as [s' [pid|]] eqn:Ep; destruct (Hproc _ _ _ Ep) as (tn & Ht).
       + destruct (Hstop s' (Failed pid)) as (tn' & Ht'). rewrite Ht', Ht, app_assoc. eexists. reflexivity.
       + sp. exists tn. exact Ht.
